@@ -248,6 +248,13 @@ def oracle(case, ires, sres):
             if ires[1] != b[:n]:
                 return ("C03/PusTm.unpack-pack/roundtrip", "re-pack %s != accepted octets %s" % (ires[1][:20], b[:n][:20]))
         return None
+    if op == 607:
+        service, subservice, apid, seq, msgcnt, ref, dest, version = a[0]
+        if valid_args(a) and valid_args([a[0], a[1], a[3]]):
+            exp = pc.tm_layout(service, subservice, apid, seq, msgcnt, ref, dest, version, a[1], a[3])
+            if err or ires[1] != exp or ires[2] != [len(exp)]:
+                return ("C11/PusTm.tm_data/stale-length", "after tm_data := %d octets: %s, fresh TM packs %d octets" % (len(a[3]), str(ires)[:120], len(exp)))
+        return None
     if op == 608:
         b, tl = a[0], a[1][0]
         if not err and ires[2] != b[7:7 + tl] or (not err and len(ires[2]) != tl):
